@@ -155,8 +155,9 @@ def strays(d, ins, outs):
 
 
 def content(path):
-    """decoded events of an output file: every stored scalar feature (None if
-    the file cannot be loaded)"""
+    """decoded events of an output file: every stored scalar feature, the
+    length the dataset reports and its metadata (None if the file cannot be
+    loaded)"""
     import dclab
     try:
         with dclab.new_dataset(path) as ds:
@@ -166,7 +167,18 @@ def content(path):
                 if dclab.definitions.scalar_feature_exists(f):
                     vals[f] = [None if x != x else round(float(x), 9)
                                for x in np.asarray(ds[f][:], dtype=float)]
-            return vals, inn
+            # what the writer's finalisation step is responsible for: the
+            # event count the file declares and the rectified / branded
+            # metadata (a file whose finalisation failed is not complete)
+            meta = {"len": len(ds)}
+            for sec in ("experiment", "imaging", "fluorescence", "setup"):
+                for k, v in sorted(dict(ds.config.get(sec, {})).items()):
+                    if (sec, k) == ("experiment", "run identifier"):
+                        # a filtered export derives a fresh identifier from
+                        # the filter object: differs between two runs
+                        continue
+                    meta["%s:%s" % (sec, k)] = repr(v)
+            return vals, inn, meta
     except BaseException:
         return None
 
